@@ -158,6 +158,7 @@ func ParseMessage(info *SheetInfo, impInfos ...importer.ImporterInfo) (proto.Mes
 			if err != nil {
 				return err
 			}
+			verifYield("ParseMessage.parsed", impInfo.Filename())
 			mu.Lock()
 			msgs = append(msgs, oneMsg{
 				protomsg:  protomsg,
@@ -165,6 +166,7 @@ func ParseMessage(info *SheetInfo, impInfos ...importer.ImporterInfo) (proto.Mes
 				sheetName: getRealSheetName(info, impInfo),
 			})
 			mu.Unlock()
+			verifYield("ParseMessage.stored", impInfo.Filename())
 			return nil
 		})
 	}
